@@ -449,11 +449,23 @@ class Evaluator:
                 except Exception as e:
                     raise Unknown(f"{st.value.func.attr}: {e}")
                 continue
+            if isinstance(st, ast.Raise):
+                nm = None
+                if st.exc is not None:
+                    e_ = st.exc.func if isinstance(st.exc, ast.Call) else st.exc
+                    nm = ast.unparse(e_)
+                raise EvalRaised(nm or "re-raise", "raise statement")
             if isinstance(st, ast.Continue):
                 raise Evaluator._Continue()
             if isinstance(st, ast.Break):
                 raise Evaluator._Break()
             if isinstance(st, ast.Assert):
+                try:
+                    holds = bool(self.ev(st.test, env))
+                except Unknown:
+                    continue  # an assertion about values the fragment does not track
+                if not holds:
+                    raise EvalRaised("AssertionError", ast.unparse(st.test)[:80])
                 continue
             raise Unknown(f"statement kind {type(st).__name__} outside the fragment")
 
